@@ -467,6 +467,14 @@ func (e *Env) eval(x *SExpr) Val {
 			return boolVal(not(v.Term))
 		case "-":
 			return Val{Sort: SortInt, T: v.T, Term: app("-", v.Term)}
+		case "*":
+			if v.T != nil {
+				if _, isPtr := v.T.Underlying().(*types.Pointer); isPtr {
+					return e.a.loadLoc(e.st, e.a.objLoc(v))
+				}
+			}
+			e.fail("cannot dereference %s", x.X)
+			return intVal("0")
 		}
 	case SBinary:
 		return e.binary(x)
